@@ -96,7 +96,7 @@ def run(tier, replay=None):
     quick = tier == "quick"
     n = 6 if quick else 60
     max_cases = 6 if quick else 16
-    n_compiled = 3 if quick else 24
+    n_compiled = 2 if quick else 24
     Ps = gen.programs(seed() * 1000 + 16, n, features=FEATURES, hide_some=False, eqrel=True, n_idb=(3, 5), max_edbs=32, edb_sample=8)
     CPs = []; owner = []
     for i, P in enumerate(Ps):
